@@ -103,6 +103,11 @@ pub struct Recorded {
     pub text: String,
     pub key: Key,
     pub size: usize,
+    /// states executed earlier in this process / on this worker thread (first of the process, first of the
+    /// thread, the last few of the thread): only used when the violation does not reproduce in isolation
+    pub history: Vec<(String, Key)>,
+    /// first state of the process and of the thread (for first-caller-wins state), not contiguous with `history`
+    pub prefix: Vec<(String, Key)>,
 }
 
 #[derive(Default)]
@@ -175,6 +180,45 @@ pub fn full_text(base: &str, lines: &[Line]) -> String {
     t
 }
 
+/// number of immediately preceding states of the same worker thread kept for history replays
+const HIST_LEN: usize = 6;
+static PROC_FIRST: std::sync::OnceLock<(String, Key)> = std::sync::OnceLock::new();
+thread_local! {
+    static HIST: std::cell::RefCell<(Option<(String, Key)>, std::collections::VecDeque<(String, Key)>)> = const { std::cell::RefCell::new((None, std::collections::VecDeque::new())) };
+}
+
+/// (prefix, window): the first state of the process and of this thread; the last HIST_LEN states of this thread
+fn history_snapshot() -> (Vec<(String, Key)>, Vec<(String, Key)>) {
+    let mut pre: Vec<(String, Key)> = vec![];
+    if let Some(f) = PROC_FIRST.get() {
+        pre.push(f.clone());
+    }
+    let win = HIST.with(|x| {
+        let x = x.borrow();
+        if let Some(f) = &x.0 {
+            if !pre.contains(f) {
+                pre.push(f.clone());
+            }
+        }
+        x.1.iter().cloned().collect::<Vec<_>>()
+    });
+    (pre, win)
+}
+
+fn history_push(text: &str, key: Key) {
+    let _ = PROC_FIRST.set((text.to_string(), key));
+    HIST.with(|x| {
+        let mut x = x.borrow_mut();
+        if x.0.is_none() {
+            x.0 = Some((text.to_string(), key));
+        }
+        x.1.push_back((text.to_string(), key));
+        if x.1.len() > HIST_LEN {
+            x.1.pop_front();
+        }
+    });
+}
+
 thread_local! {
     static LAST_PANIC: std::cell::RefCell<String> = const { std::cell::RefCell::new(String::new()) };
 }
@@ -232,6 +276,8 @@ pub fn run_state<C: StateCheck>(check: &C, base: &str, lines: &[Line], depth: us
 }
 
 pub fn merge(shared: &Shared, text: &str, size: usize, depth: usize, key: Key, out: &mut Out, panic: Option<String>) {
+    let (prefix, history) = if out.viols.is_empty() { (vec![], vec![]) } else { history_snapshot() };
+    history_push(text, key);
     let n = shared.states_executed.fetch_add(1, Ordering::Relaxed);
     shared.evals.fetch_add(out.evals, Ordering::Relaxed);
     shared.compared.fetch_add(out.compared, Ordering::Relaxed);
@@ -272,7 +318,7 @@ pub fn merge(shared: &Shared, text: &str, size: usize, depth: usize, key: Key, o
         *c += 1;
         let keep_for_sig = g.recorded.iter().filter(|r| format!("{}|{}", r.viol.clause, r.viol.features.join("+")) == sig).count();
         if keep_for_sig < 6 {
-            g.recorded.push(Recorded { viol: v, text: text.to_string(), key, size });
+            g.recorded.push(Recorded { viol: v, text: text.to_string(), key, size, history: history.clone(), prefix: prefix.clone() });
         } else {
             // keep the smallest inputs per signature
             if let Some((idx, worst)) = g
@@ -284,7 +330,7 @@ pub fn merge(shared: &Shared, text: &str, size: usize, depth: usize, key: Key, o
                 .map(|(i, r)| (i, (r.size, r.text.len())))
             {
                 if (size, text.len()) < worst {
-                    g.recorded[idx] = Recorded { viol: v, text: text.to_string(), key, size };
+                    g.recorded[idx] = Recorded { viol: v, text: text.to_string(), key, size, history: history.clone(), prefix: prefix.clone() };
                 }
             }
         }
@@ -399,6 +445,8 @@ pub fn finish(ctx: &Ctx, shared: &Shared, check: &dyn StateCheck, fin: Finish) -
     }
 
     let mut replay_paths = vec![];
+    // violations seen while exploring that reproduce neither alone nor after their recorded history
+    let mut unconfirmed: Vec<String> = vec![];
     let _ = std::fs::remove_dir_all(format!("{}/replays/{property}", verif_root()));
     if !unlisted.is_empty() {
         // replay-twice rule on the smallest unlisted violation of each signature
@@ -406,8 +454,8 @@ pub fn finish(ctx: &Ctx, shared: &Shared, check: &dyn StateCheck, fin: Finish) -
         let dir = format!("{}/replays/{property}", verif_root());
         let _ = std::fs::create_dir_all(&dir);
         for r in &unlisted {
-            let sig = format!("{}|{}", r.viol.clause, r.viol.features.join("+"));
-            if !seen_sig.insert(sig) {
+            let sig0 = format!("{}|{}", r.viol.clause, r.viol.features.join("+"));
+            if !seen_sig.insert(sig0.clone()) {
                 continue;
             }
             let (v1, p1) = replay_record(check, &r.text, r.key);
@@ -430,6 +478,58 @@ pub fn finish(ctx: &Ctx, shared: &Shared, check: &dyn StateCheck, fin: Finish) -
                 }
             }
             let r = &r;
+            if k1 == k2 && p1 == p2 && !reproduced && !(r.history.is_empty() && r.prefix.is_empty()) {
+                // not a property of this state alone: try the state after its history, twice, each time in a fresh
+                // child process. Mode "window": the states this worker thread executed immediately before, on one
+                // thread started with the recorded hash key of the first of them (so every state gets the key it
+                // had). Mode "full": additionally the first state of the process and of the thread before them.
+                let n = replay_paths.len();
+                let path = format!("{dir}/{n}.json");
+                let mut r2 = r.clone();
+                r2.viol.features.push("history".to_string());
+                let hj = |h: &Vec<(String, Key)>| -> Vec<Value> { h.iter().map(|(t, k)| json!({"text": t, "hash_key": [k.0.to_string(), k.1.to_string()]})).collect() };
+                let mut accepted = false;
+                for mode in ["window", "full"] {
+                    let hist: Vec<(String, Key)> = if mode == "window" { r2.history.clone() } else { r2.prefix.iter().chain(r2.history.iter()).cloned().collect() };
+                    if hist.is_empty() || (mode == "full" && r2.prefix.is_empty()) {
+                        continue;
+                    }
+                    let rec = json!({
+                        "property": property, "clause": r2.viol.clause, "features": r2.viol.features, "config": r2.viol.config,
+                        "observed": r2.viol.observed, "expected": r2.viol.expected,
+                        "history_mode": mode, "history": hj(&hist), "text": r2.text, "hash_key": [r2.key.0.to_string(), r2.key.1.to_string()],
+                        "replay": format!("{}/bin/check {property} --replay {path}", verif_root()),
+                    });
+                    std::fs::write(&path, serde_json::to_string_pretty(&rec).unwrap()).ok();
+                    let run = || -> (Option<i32>, Vec<String>) {
+                        match std::process::Command::new(std::env::current_exe().unwrap_or_default()).args([property, "--replay", &path]).output() {
+                            Ok(o) => (o.status.code(), String::from_utf8_lossy(&o.stdout).lines().filter(|l| l.starts_with("  clause=")).map(String::from).collect()),
+                            Err(_) => (None, vec![]),
+                        }
+                    };
+                    let (c1, l1) = run();
+                    let (c2, l2) = run();
+                    let want = format!("  clause={} features={:?}", r.viol.clause, r.viol.features);
+                    if c1 == Some(1) && c2 == Some(1) && l1 == l2 && l1.iter().any(|l| l.starts_with(&want)) {
+                        eprintln!("NOTE: violation of clause {} depends on the states executed before it; reported with its history ({mode}, {} earlier states)", r.viol.clause, hist.len());
+                        accepted = true;
+                        break;
+                    }
+                }
+                let label = format!("clause {} features {:?}", r.viol.clause, r.viol.features);
+                if accepted {
+                    replay_paths.push((path, r2));
+                    unconfirmed.retain(|u| *u != label);
+                    continue;
+                }
+                let _ = std::fs::remove_file(&path);
+                if !unconfirmed.contains(&label) {
+                    unconfirmed.push(label);
+                }
+                // the next recorded instance of the same signature (another history) gets its chance
+                seen_sig.remove(&sig0);
+                continue;
+            }
             if k1 != k2 || p1 != p2 || !reproduced {
                 eprintln!(
                     "MACHINERY: replay of a violation diverged (clause {} features {:?} key {:?}): two_replays_equal={} panics_equal={} reproduced={} replay_violations={} ; first {:?} second {:?} original {:?}",
@@ -452,6 +552,14 @@ pub fn finish(ctx: &Ctx, shared: &Shared, check: &dyn StateCheck, fin: Finish) -
         }
     }
 
+    if !unconfirmed.is_empty() {
+        if replay_paths.is_empty() && exit == 0 {
+            eprintln!("MACHINERY: {} violation signature(s) seen during the exploration reproduce neither in isolation nor after their recorded history: {:?}", unconfirmed.len(), unconfirmed);
+            exit = 2;
+        } else {
+            println!("NOTE: {} further violation signature(s) seen during the exploration could not be reproduced in a fresh process (history-dependent like the reported ones?): {:?}", unconfirmed.len(), unconfirmed);
+        }
+    }
     for f in &findings {
         // the witness input of every open finding is replayed on each run
         if !f.witness.is_empty() {
@@ -603,7 +711,37 @@ pub fn replay_file(property: &str, check: &dyn StateCheck, path: &str) -> i32 {
     let text = v["text"].as_str().unwrap_or("").to_string();
     let k0 = v["hash_key"][0].as_str().and_then(|s| s.parse::<u64>().ok()).unwrap_or(1 << 40);
     let k1 = v["hash_key"][1].as_str().and_then(|s| s.parse::<u64>().ok()).unwrap_or(sched::K1);
-    let (viols, panic) = replay_record(check, &text, (k0, k1));
+    let history: Vec<(String, Key)> = v["history"]
+        .as_array()
+        .map(|a| {
+            a.iter()
+                .filter_map(|x| {
+                    let t = x["text"].as_str()?.to_string();
+                    let h0 = x["hash_key"][0].as_str().and_then(|s| s.parse::<u64>().ok())?;
+                    let h1 = x["hash_key"][1].as_str().and_then(|s| s.parse::<u64>().ok())?;
+                    Some((t, (h0, h1)))
+                })
+                .collect()
+        })
+        .unwrap_or_default();
+    let (viols, panic) = if history.is_empty() {
+        replay_record(check, &text, (k0, k1))
+    } else {
+        // the earlier states first, on the same fresh thread, started with the hash key the first of them had
+        // (their verdicts are not looked at)
+        sched::isolated(history[0].1, || {
+            for (h, _) in &history {
+                let mut o = Out::default();
+                let _ = guarded(check, h, &[], &mut o);
+            }
+            let mut out = Out::default();
+            let p = guarded(check, &text, &[], &mut out);
+            (out.viols, p)
+        })
+    };
+    for (i, (h, _)) in history.iter().enumerate() {
+        println!("earlier state {i}:\n{h}");
+    }
     println!("replay of {path} (property {property}, hash key ({k0},{k1})):\n{text}");
     if let Some(p) = &panic {
         println!("  PANIC: {p}");
